@@ -466,7 +466,7 @@ Print Assumptions C10_ll2_skyline_solve.
    Recorded as known finding C03-empty-coarse-level-direct-solver-crash. *)
 Theorem C10_ll2_skyline_empty_matrix_refuted :
   ll_sky_build (flat_of ex0) [] = OutOfBounds /\ sky_out_of (sky_build_perm ex0 []) = KThrow.
-Proof. exact (conj ll_sky_build_n0 sky_build_perm_n0). Qed.
+Proof. exact ll_sky_build_n0_both. Qed.
 Print Assumptions C10_ll2_skyline_empty_matrix_refuted.
 
 (* the degenerate inputs named by the property, and inputs on which the checks must (and do) bite *)
